@@ -58,6 +58,17 @@ class C03(Prop):
         hc = huge_cases(r)
         for d in (hc if ctx.tier == "thorough" else r.sample(hc, 8)):
             yield ("FRAME " + hx(d), "huge-slice", True)
+        # valid frames whose checksum is a chosen value (zero, all ones, ff/00 bytes, a preamble byte, literals
+        # of the sources), their near-misses and every truncation of their checksum field
+        for c in special_crcs(ctx.repo):
+            for L in (3, r.choice([4, 5, 19, 60])):
+                f = frame_with_crc(r, L, c, r.choice(SUPPORTED), r.choice([0, 0, 63]))
+                yield ("FRAME " + hx(f), "special-checksum", True)
+                yield ("SCAN " + hx(rand_bytes(r, 2).replace(b"\xd3", b"\x00") + f + f), "special-checksum-scan", True)
+                for cut in (1, 2, 3):
+                    yield ("FRAME " + hx(f[:-cut]), "special-checksum-truncated", True)
+                for cls, d in near_misses(r, f):
+                    yield ("FRAME " + hx(d), cls, spec_frame(d)[1])
         for _ in range(300 if ctx.tier == "quick" else 3000):
             n = r.choice([0, 1, 5, 6, 7, r.randrange(0, 40)])
             d = bytearray(rand_bytes(r, n))
@@ -97,6 +108,11 @@ class C13(Prop):
             for s in sfxs:
                 yield ("FRAME " + hx(f + s), "suffix-%d" % min(len(s), 9), True)
                 yield ("SCAN " + hx(f + s), "scan-suffix", True)
+        for c in special_crcs(ctx.repo)[:12]:
+            f = frame_with_crc(r, r.choice([3, 5, 30]), c, r.choice(SUPPORTED))
+            yield ("FRAME " + hx(f), "bare", False)
+            for sfx in (b"\x00", b"\xff\xff", rand_bytes(r, 9), f):
+                yield ("FRAME " + hx(f + sfx), "special-checksum-suffix", True)
         # decoders must not see bytes after the frame: inconsistent internal lengths followed by plausible data
         for fr in frames_1029_overlong(r, 60 if ctx.tier == "quick" else 600):
             yield ("DEC " + hx(fr), "internal-length-beyond-payload", True)
@@ -160,6 +176,23 @@ class C05(Prop):
             f = mk_frame(payload_for(r, L, 1077))
             yield ("SCAN " + hx(b"\xd3" + f[:50] + f + f[:7]), "long", True)
             yield ("ITER " + hx(f + f + b"\xd3\x00"), "long", True)
+        # frames with chosen checksum values, alone, doubled, after garbage and with every short tail
+        for c in special_crcs(ctx.repo):
+            f = frame_with_crc(r, r.choice([3, 4, 9, 30]), c, r.choice(SUPPORTED))
+            g0 = rand_bytes(r, r.randrange(0, 4)).replace(b"\xd3", b"\x01")
+            yield ("SCAN " + hx(g0 + f), "special-checksum", True)
+            yield ("ITER " + hx(g0 + f + f + mk_frame(b"")), "special-checksum", True)
+            for cut in (1, 2, 3, 4):
+                yield ("SCAN " + hx(g0 + f[:-cut]), "special-checksum-truncated", True)
+                yield ("ITER " + hx(f + f[:-cut]), "special-checksum-truncated", True)
+        # every frame length class as the very end of the buffer, behind garbage / frames / nothing
+        for L in (0, 0, 1, 2, 3, 5):
+            f = mk_frame(payload_for(r, L, r.choice(SUPPORTED)))
+            bad = bytearray(f); bad[-1] ^= 1
+            for pre in (b"", b"\x00", rand_bytes(r, 7).replace(b"\xd3", b"\x02"), mk_frame(payload_for(r, 4, 1005)), b"\xd3"):
+                for ff in (f, bytes(bad)):
+                    yield ("SCAN " + hx(pre + ff), "frame-at-end", True)
+                    yield ("ITER " + hx(pre + ff), "frame-at-end", True)
         yield ("SCAN -", "empty", False)
         yield ("ITER -", "empty", False)
 
@@ -204,11 +237,16 @@ class C06(Prop):
                 ops.append("a" + hx(p))
                 ops += ["s"] * r.choice([0, 0, 1, 1, 2, 3])
             yield ("SCHED " + "|".join(ops), "schedule", len(parts) >= 2)
-        f = mk_frame(payload_for(r, 6, 1005))
-        pre = rand_bytes(r, 2)
-        for cut in range(len(f) + 1):
-            s = pre + f + f
-            yield ("FEED " + hx(s[:2 + cut]) + "|" + hx(s[2 + cut:]), "cut-at-every-offset", True)
+        frames = [mk_frame(payload_for(r, 6, 1005)), mk_frame(b""), mk_frame(payload_for(r, 1, 1005)), mk_frame(payload_for(r, 2, 1077), 63)]
+        frames += [frame_with_crc(r, r.choice([3, 5, 8]), c, r.choice(SUPPORTED)) for c in special_crcs(ctx.repo)]
+        for f in frames:
+            pre = rand_bytes(r, 2).replace(b"\xd3", b"\x03")
+            for cut in range(len(f) + 1):
+                s = pre + f + f
+                yield ("FEED " + hx(s[:2 + cut]) + "|" + hx(s[2 + cut:]), "cut-at-every-offset", True)
+                if cut in (len(f) - 1, len(f) - 2, len(f) - 3, 1, 2, 3, 5):
+                    yield ("SCHED a" + hx(s[:2 + cut]) + "|s|s|a" + hx(s[2 + cut:]) + "|s", "cut-then-scan", True)
+                    yield ("FEED " + hx(f[:cut]) + "|" + hx(f[cut:] + f), "cut-at-every-offset-clean-start", True)
 
 
 @register
@@ -232,6 +270,9 @@ class C04(Prop):
         frames = []
         for L in list(range(0, 12)) + [r.randrange(12, 60) for _ in range(6 if not thorough else 30)] + [255, 1023]:
             frames.append(mk_frame(payload_for(r, L, r.choice(SUPPORTED)), r.choice([0, 0, 63, r.randrange(64)])))
+
+        for c in special_crcs(ctx.repo):
+            frames.append(frame_with_crc(r, r.choice([3, 4, 7, 16]), c, r.choice(SUPPORTED), r.choice([0, 0, 63])))
 
         def admissible(nbits):
             return [p for p in range(nbits) if 8 <= p < 14 or p >= 24]
